@@ -55,8 +55,9 @@ class Gen:
     def __init__(self, rng, profile="py", tag_calls=False, max_ops=12, nphases=None, allow_end=True,
                  weird_names=True, persistent_arrays=True, multi_result=True, persist_tag="",
                  readonly_state=(), advance_time=True, phase_plan=None, components=None, funcs=None,
-                 ifexpr=True):
+                 ifexpr=True, call_bias=0.0):
         self.ifexpr = ifexpr
+        self.call_bias = call_bias
         self.persist_tag = persist_tag
         self.readonly_state = list(readonly_state)
         self.advance_time = advance_time
@@ -117,6 +118,8 @@ class Gen:
 
     def num_expr(self, sc, d):
         rng = self.rng
+        if self.call_bias and d > 0 and rng.random() < self.call_bias:
+            return self.ucall_scalar(sc, d)
         r = rng.random()
         if d <= 0 or r < 0.2:
             return self.num_leaf(sc)
